@@ -1,4 +1,57 @@
-From HP Require Import Base.Prelude KV.Types KV.FS KV.Handle KV.Run.
-Example C03_smoke : snapshot kv_init <> [].
-Proof. vm_compute. discriminate. Qed.
-Print Assumptions C03_smoke.
+(* C03 -- The namespace is always a well-formed tree: no orphans, no hidden entries.
+   Model: the key-value FS model (KV/FS.v, KV/Run.v: [step], [exec]) -- mem.FS forwards every method to it.
+   [wf_store s]: the root is a key and a directory; every key is the root or a path of real names (no empty,
+   "." or ".." element); every other key's parent (path.Dir) is a key and a directory.
+   PROVED, for EVERY history of namespace operations (Mkdir, MkdirAll, OpenFile+Close with any flags,
+   WriteFullFile, Remove, RemoveAll, Rename incl. directories moved with all their descendants, Chmod,
+   Chtimes, Stat, ReadDir, ReadFile), every argument, successful or failed, no bound on length or depth:
+   the store is well-formed after every step -- so no operation ends having made an entry unreachable.
+   Consequences: a path Stat accepts has a parent that is a directory and whose listing names it.
+   Every operation of the model terminates (Coq functions are total; the recursions of RemoveAll/Rename
+   are bounded by fuel = number of records + 2: running out would show as a correspondence mismatch).
+   Hypothesis: no store failure (C14 treats failures).  NOT covered by theorems: writes through handles
+   that outlive the removal of their path (C17 known finding), mount and Sub compositions (harness
+   invariant check; two known findings). *)
+From HP Require Import Base.Prelude Base.Path Base.DirProofs KV.Types KV.FS KV.Handle KV.Run KV.TreeProofs.
+Open Scope N_scope.
+
+Theorem C03_every_history_keeps_the_tree_well_formed : forall ops, Forall ns_op ops ->
+  st_fault (exec ops) = None /\ wf_store (st_store (exec ops)).
+Proof. exact history_good. Qed.
+Print Assumptions C03_every_history_keeps_the_tree_well_formed.
+
+Theorem C03_every_operation_preserves_well_formedness : forall st o, good st -> ns_op o -> good (fst (step st o)).
+Proof. exact step_good. Qed.
+Print Assumptions C03_every_operation_preserves_well_formedness.
+
+(* Rename: also when it moves a directory tree, the old name is gone and only names at or below the new
+   name appear *)
+Theorem C03_rename_moves_without_orphans : forall fuel st o n, good st ->
+  good (fst (kv_rename fuel st o n)) /\
+  (snd (kv_rename fuel st o n) = None -> o <> n ->
+     lookup (st_store (fst (kv_rename fuel st o n))) o = None /\
+     forall k, lookup (st_store (fst (kv_rename fuel st o n))) k <> None -> lookup (st_store st) k <> None \/ anc n k).
+Proof. exact kv_rename_ok. Qed.
+Print Assumptions C03_rename_moves_without_orphans.
+
+(* what well-formedness gives the user: the parent exists, is a directory, and lists the entry *)
+Theorem C03_parent_is_a_directory_that_lists_the_entry : forall s p r,
+  wf_store s -> lookup s p = Some r -> p <> dot ->
+  has_dir s (path_dir p) /\ exists c, child_name (path_dir p) p = Some c /\ In c (child_names (path_dir p) s).
+Proof. exact parent_lists_child. Qed.
+Print Assumptions C03_parent_is_a_directory_that_lists_the_entry.
+
+(* a directory can only be removed when nothing is below it; a non-directory never has anything below it *)
+Theorem C03_empty_listing_means_no_children : forall s p, wf_store s -> child_names p s = [] -> childless s p.
+Proof. exact empty_listing_childless. Qed.
+Print Assumptions C03_empty_listing_means_no_children.
+
+Theorem C03_nothing_below_a_file : forall s p r,
+  wf_store s -> lookup s p = Some r -> is_dir (r_mode r) = false -> childless s p.
+Proof. exact nondir_childless. Qed.
+Print Assumptions C03_nothing_below_a_file.
+
+Example C03_nonvacuous :
+  let ops := [MkdirAll (S "a/b") 493; WriteFile (S "a/b/f") [1; 2] 420; Rename (S "a") (S "c"); Remove (S "c/b/f")] in
+  Forall ns_op ops /\ map (fun e => fst (fst (fst e))) (snapshot (exec ops)) = [S "."; S "c"; S "c/b"].
+Proof. split; [repeat constructor|vm_compute; reflexivity]. Qed.
